@@ -1,5 +1,6 @@
 import Rq.Spec.Defs
 import Rq.Thm.C15
+import Rq.Lemmas.IsiBound
 import Rq.Lemmas.Stream
 import Rq.Lemmas.Linear
 /-!
@@ -120,8 +121,8 @@ theorem solver_irrelevant (sv sv' : Solver) (hs : SolverSpec sv) (hs' : SolverSp
         | solved c' =>
           simp only [hf, Option.some.injEq] at he
           simp only [hf', Option.some.injEq] at he'
-          obtain ⟨hw, hap, hdet⟩ := hs.full_solved sp _ a o.t _ c ha ht hrhs hc hf
-          obtain ⟨hw', hap', _⟩ := hs'.full_solved sp _ a o.t _ c' ha ht hrhs hc hf'
+          obtain ⟨hw, hap, hdet⟩ := hs.full_solved _ sp _ a o.t _ c hsp (range_kp_lt _ _ hsp) ha ht hrhs hc hf
+          obtain ⟨hw', hap', _⟩ := hs'.full_solved _ sp _ a o.t _ c' hsp (range_kp_lt _ _ hsp) ha ht hrhs hc hf'
           have : c = c' := determined_unique a o.t c c' hw hw' hbytes hdet (by rw [hap, hap'])
           rw [← he, ← he', this]
 
